@@ -309,6 +309,52 @@ def run_big(c):
     return ck.result()
 
 
+# ------------------------------------------------------------------------------------------- collections of polyhedra
+@st.composite
+def polycoll_case(draw, tier="quick"):
+    return {"n": draw(st.sampled_from([1, 2, 3, 6])), "m": draw(Z.params(9)), "mclass": [draw(st.sampled_from(["affine", "isometry", "shear", "unimodular"])) for _ in range(3)],
+            "v": draw(Z.params(4)), "single_t": draw(st.booleans())}
+
+
+def run_polycoll(c):
+    """n cuboids stored in one Polyhedron tensor with a collection axis (shape (n, faces, vertices, 4)) under a
+    TransformationCollection of n matrices (or one Transformation): polyhedron k is moved by transformation k, face by face
+    and vertex by vertex; the inverse collection moves it back"""
+    n = c["n"]
+    c3 = dict(c, d=3)
+    base = mats(c3)
+    v = c["v"]
+    cubs = []
+    for i in range(n):
+        o = np.array([v[(3 * i) % len(v)], v[(3 * i + 1) % len(v)], v[(3 * i + 2) % len(v)]], float)
+        e = [1.0 + (v[(i + 5) % len(v)] % 3), 1.0 + (v[(i + 7) % len(v)] % 2), 2.0]
+        cubs.append(G.Cuboid(Point(*o), Point(*(o + [e[0], 0, 0])), Point(*(o + [0, e[1], 0])), Point(*(o + [0, 0, e[2]]))))
+    P_ = G.Polyhedron(np.stack([x.array for x in cubs]))
+    Ms = [np.array(base[i % 3], float) * [1, 2, -1][(i // 3) % 3] for i in range(n)]
+    if any(abs(np.linalg.det(M)) < 1e-9 for M in Ms):
+        raise Skip("singular")
+    single = c["single_t"] or n == 1
+    t = Transformation(Ms[0]) if single else TransformationCollection(np.stack(Ms))
+    ck = Checker()
+    site = f"polyhedra-collection:n{n}:{'single-t' if single else 't-collection'}"
+    R, f = call(site, lambda: t * P_)
+    if f:
+        return [f]
+    if not ck.check(np.asarray(R.array).shape == P_.array.shape and isinstance(R, G.Polyhedron), site + ":shape", (np.asarray(R.array).shape, type(R).__name__)):
+        return ck.result()
+    for k in range(n):
+        M = Ms[0] if single else Ms[k]
+        exp = np.einsum("ij,fvj->fvi", M, cubs[k].array)
+        if not ck.check(C.peq_all(np.asarray(R.array)[k], exp, 1, 1e-9), site + ":polyhedron-k-moved-by-transformation-k", k):
+            break
+    back, f = call(site + ":inverse", lambda: t.inverse() * R)
+    if f:
+        ck.add(f)
+    else:
+        ck.check(np.asarray(back.array).shape == P_.array.shape and C.peq_all(back.array, P_.array, 1, 1e-7), site + ":inverse*(t*x)=x")
+    return ck.result()
+
+
 LAWS = [
     Law("group", lambda tier: case(tier), run_group, nontrivial, labels, {"quick": 1600, "thorough": 40000},
         "(s*t)*x = s*(t*x), identity, inverse, same kind; action anchored to M@v for point-like objects", shard=400),
@@ -319,6 +365,9 @@ LAWS = [
     Law("large_collection", lambda tier: big_case(tier), run_big, lambda c: c["size"] >= 64, lambda c: ["int" if c["int"] else "float", "size>=64" if c["size"] >= 64 else "size<64", f"d{c['d']}"],
         {"quick": 300, "thorough": 5000}, "TransformationCollection of up to 70 (integer-typed or float) matrices: inverse, t**-1, action on points and lines element by element", shard=100,
         mandatory=("int", "size>=64")),
+    Law("polyhedra_collection", lambda tier: polycoll_case(tier), run_polycoll, lambda c: c["n"] > 1, lambda c: [f"n{c['n']}", "single-t" if (c["single_t"] or c["n"] == 1) else "t-collection"],
+        {"quick": 300, "thorough": 5000}, "collections of cuboids in one Polyhedron tensor under transformation collections: element-wise action and inverse", shard=150,
+        mandatory=("t-collection", "n6")),
     Law("polytope_observation", lambda tier: case(tier).filter(lambda c: c["kind"] in ("segment", "segmentcoll", "polygon", "polygoncoll", "triangle", "rectangle")),
         run_polytope_obs, nontrivial, labels, {"quick": 500, "thorough": 10000},
         "cached _line/_plane of transformed polytopes and membership of transformed interior points", shard=400),
